@@ -310,4 +310,204 @@ theorem step_shift (k : Nat) (lax : Bool) (g : Mem) (p : Packet) (t : Tag) (c : 
     step lax g (shPacket k p) t (shCtx k c) = shStepR k (step lax (shM k g) p t c) :=
   step_shift_gen k g (shM k g) (fun _ => rfl) lax p c (shCtx k c) (shC_shCtx k c) t
 
+/-! ### D. the walk -/
+
+def shRes (k : Nat) (r : Packet × Option Fault) : Packet × Option Fault :=
+  (shPacket k r.1, r.2.map (shFault k))
+
+/-- **the walk is placement independent**: walking the memory seen from offset `k` and moving every
+    offset of the result by `k` is walking the original memory from the moved context -/
+theorem walkN_shift (k : Nat) (lax : Bool) (g : Mem) (n : Nat) (p : Packet) (t : Tag) (c : Ctx) :
+    walkN lax g n (shPacket k p) t (shCtx k c) = shRes k (walkN lax (shM k g) n p t c) := by
+  induction n generalizing p t c with
+  | zero =>
+    simp only [walkN]
+    split <;> simp [shRes, shFault_mkFault]
+  | succ n ih =>
+    simp only [walkN]
+    split
+    · simp [shRes]
+    · rw [step_shift]
+      cases hf : (step lax (shM k g) p t c).fault with
+      | some f => simp [shStepR, hf, shRes]
+      | none => simp [shStepR, hf, ih]
+
+/-! #### the link field is not touched behind the link layer; fuel -/
+
+/-- a packet with the link field replaced -/
+def setLk (lk : Option LinkR) (p : Packet) : Packet :=
+  { link := lk, exts := p.exts, net := p.net, tp := p.tp, stop := p.stop }
+
+def stepLk (lk : Option LinkR) (r : StepR) : StepR := { p := setLk lk r.p, next := r.next, c := r.c, fault := r.fault }
+
+theorem setNet_setLk (lk : Option LinkR) (p : Packet) (x : NetR) : setNet (setLk lk p) x = setLk lk (setNet p x) := rfl
+theorem setTp_setLk (lk : Option LinkR) (p : Packet) (x : TpR) : setTp (setLk lk p) x = setLk lk (setTp p x) := rfl
+theorem addExt_setLk (lk : Option LinkR) (p : Packet) (x : ExtR) : addExt (setLk lk p) x = setLk lk (addExt p x) := rfl
+theorem stepLk_mk (lk : Option LinkR) (p : Packet) (t : Tag) (c : Ctx) (f : Option Fault) :
+    stepLk lk ⟨p, t, c, f⟩ = ⟨setLk lk p, t, c, f⟩ := rfl
+
+theorem step_link_ipv4 (lax : Bool) (g : Mem) (p : Packet) (c : Ctx) (lk : Option LinkR) :
+    step lax g (setLk lk p) .ipv4 c = stepLk lk (step lax g p .ipv4 c) := by
+  simp only [step, setNet_setLk]
+  generalize bound lax c .ipv4Packet .ipv4HeaderTotalLen (g c.off % 16 * 4) (g16 g (c.off + 2)) = r
+  rcases r with f | ⟨s, l, i⟩ <;> simp only [apply_ite (stepLk lk), stepLk_mk]
+
+theorem step_link_ipv6 (lax : Bool) (g : Mem) (p : Packet) (c : Ctx) (lk : Option LinkR) :
+    step lax g (setLk lk p) .ipv6 c = stepLk lk (step lax g p .ipv6 c) := by
+  simp only [step, setNet_setLk]
+  generalize g16 g (c.off + 4) = plen
+  generalize (if plen = 0 ∧ c.avail > 40 then Except.ok (c.stop, LenSource.slice, false)
+        else bound lax c .ipv6Packet .ipv6HeaderPayloadLen 40 (40 + plen)) = r
+  rcases r with f | ⟨s, l, i⟩
+  · simp only [apply_ite (stepLk lk), stepLk_mk]
+  · simp only
+    generalize chain g (inherit c.lim l) true (g (c.off + 6)) false (c.off + 40) s = chf
+    obtain ⟨ch, fo⟩ := chf
+    cases fo <;> simp only [apply_ite (stepLk lk), stepLk_mk]
+
+theorem step_link_macsec (lax : Bool) (g : Mem) (p : Packet) (c : Ctx) (lk : Option LinkR) :
+    step lax g (setLk lk p) (.ether 0x88e5) c = stepLk lk (step lax g p (.ether 0x88e5) c) := by
+  have hv' : isVlanType 0x88e5 = false := by decide
+  simp only [step, hv', if_true, if_false, Bool.false_eq_true, addExt_setLk]
+  generalize g c.off = tci
+  generalize g (c.off + 1) = slb
+  generalize secTagLen (decide (tci / 32 % 2 = 1)) (decide (tci / 8 % 2 = 0 ∧ tci / 4 % 2 = 0)) = hl
+  generalize (if tci / 8 % 2 = 0 ∧ tci / 4 % 2 = 0 then slb % 64 - 2 else slb % 64) = plen
+  generalize (if slb % 64 = 0 then (Except.ok (c.stop, LenSource.slice, false) : Except Fault (Nat × LenSource × Bool))
+    else if c.avail < hl + plen then
+      if lax = true then Except.ok (c.stop, LenSource.slice, true)
+      else Except.error (mkFault c FaultClass.claimsMore Unit_.macsecPacket (hl + plen))
+    else Except.ok (c.off + hl + plen, LenSource.macsecShortLength, false)) = r
+  rcases r with f | ⟨s, l, i⟩ <;> simp only [apply_ite (stepLk lk), stepLk_mk]
+
+theorem step_link (lax : Bool) (g : Mem) (p : Packet) (t : Tag) (c : Ctx) (lk : Option LinkR)
+    (h1 : t ≠ .eth) (h2 : t ≠ .sll) :
+    step lax g (setLk lk p) t c = stepLk lk (step lax g p t c) := by
+  cases t with
+  | eth => exact absurd rfl h1
+  | sll => exact absurd rfl h2
+  | done => simp [step, stepLk]
+  | ipAny => simp only [step, apply_ite (stepLk lk), stepLk_mk]
+  | tp num => simp only [step, setTp_setLk, apply_ite (stepLk lk), stepLk_mk]
+  | ether et =>
+    by_cases hv : isVlanType et = true
+    · simp only [step, hv, if_true, addExt_setLk, apply_ite (stepLk lk), stepLk_mk]
+    · by_cases hm : et = 0x88e5
+      · subst hm; exact step_link_macsec lax g p c lk
+      · simp only [step, hv, hm, if_true, if_false, Bool.false_eq_true, setNet_setLk, apply_ite (stepLk lk), stepLk_mk]
+  | ipv4 => exact step_link_ipv4 lax g p c lk
+  | ipv6 => exact step_link_ipv6 lax g p c lk
+/-- an upper bound on the number of steps that can still follow (`e`: link extensions so far) -/
+def rank : Tag → Nat → Nat
+  | .done, _ => 0
+  | .tp _, _ => 1
+  | .ipv4, _ => 2
+  | .ipv6, _ => 2
+  | .ipAny, _ => 3
+  | .ether _, e => 7 - e
+  | .eth, _ => 8
+  | .sll, _ => 8
+
+/-- what a step does to the rank -/
+def Desc (t : Tag) (c : Ctx) (r : StepR) : Prop :=
+  r.c.nExt ≤ 3 ∧ (r.fault = none → rank r.next r.c.nExt < rank t c.nExt)
+
+theorem desc_mk (t : Tag) (c : Ctx) (p : Packet) (t' : Tag) (c' : Ctx) (f : Option Fault) :
+    Desc t c ⟨p, t', c', f⟩ = (c'.nExt ≤ 3 ∧ (f = none → rank t' c'.nExt < rank t c.nExt)) := rfl
+
+macro "descfin" : tactic => `(tactic| ((repeat' split) <;> (try simp_all [rank]) <;> (try omega)))
+
+theorem step_desc (lax : Bool) (g : Mem) (p : Packet) (t : Tag) (c : Ctx) (h3 : c.nExt ≤ 3) (ht : t ≠ .done) :
+    Desc t c (step lax g p t c) := by
+  cases t with
+  | done => exact absurd rfl ht
+  | eth => simp only [step, apply_ite (Desc _ c), desc_mk]; descfin
+  | sll => simp only [step, apply_ite (Desc _ c), desc_mk]; descfin
+  | ipAny => simp only [step, apply_ite (Desc _ c), desc_mk]; descfin
+  | tp num => simp only [step, apply_ite (Desc _ c), desc_mk]; descfin
+  | ether et =>
+    by_cases hv : isVlanType et = true
+    · simp only [step, hv, if_true, apply_ite (Desc _ c), desc_mk]; descfin
+    · by_cases hm : et = 0x88e5
+      · subst hm
+        have hv' : isVlanType 0x88e5 = false := by decide
+        simp only [step, hv', if_true, if_false, Bool.false_eq_true]
+        generalize g c.off = tci
+        generalize g (c.off + 1) = slb
+        generalize secTagLen (decide (tci / 32 % 2 = 1)) (decide (tci / 8 % 2 = 0 ∧ tci / 4 % 2 = 0)) = hl
+        generalize (if tci / 8 % 2 = 0 ∧ tci / 4 % 2 = 0 then slb % 64 - 2 else slb % 64) = plen
+        generalize (if slb % 64 = 0 then (Except.ok (c.stop, LenSource.slice, false) : Except Fault (Nat × LenSource × Bool))
+          else if c.avail < hl + plen then
+            if lax = true then Except.ok (c.stop, LenSource.slice, true)
+            else Except.error (mkFault c FaultClass.claimsMore Unit_.macsecPacket (hl + plen))
+          else Except.ok (c.off + hl + plen, LenSource.macsecShortLength, false)) = r
+        rcases r with f | ⟨s, l, i⟩ <;> simp only [apply_ite (Desc _ c), desc_mk] <;> descfin
+      · simp only [step, hv, hm, if_true, if_false, Bool.false_eq_true, apply_ite (Desc _ c), desc_mk]; descfin
+  | ipv4 =>
+    simp only [step]
+    generalize bound lax c .ipv4Packet .ipv4HeaderTotalLen (g c.off % 16 * 4) (g16 g (c.off + 2)) = r
+    rcases r with f | ⟨s, l, i⟩ <;> simp only [apply_ite (Desc _ c), desc_mk] <;> descfin
+  | ipv6 =>
+    simp only [step]
+    generalize g16 g (c.off + 4) = plen
+    generalize (if plen = 0 ∧ c.avail > 40 then Except.ok (c.stop, LenSource.slice, false)
+          else bound lax c .ipv6Packet .ipv6HeaderPayloadLen 40 (40 + plen)) = r
+    rcases r with f | ⟨s, l, i⟩
+    · simp only [apply_ite (Desc _ c), desc_mk]; descfin
+    · simp only
+      generalize chain g (inherit c.lim l) true (g (c.off + 6)) false (c.off + 40) s = chf
+      obtain ⟨ch, fo⟩ := chf
+      cases fo <;> simp only [apply_ite (Desc _ c), desc_mk] <;> descfin
+theorem walkN_done' (lax : Bool) (g : Mem) (n : Nat) (p : Packet) (c : Ctx) : walkN lax g n p .done c = (p, none) := by
+  cases n <;> simp [walkN]
+
+theorem rank_zero {t : Tag} {e : Nat} (he : e ≤ 3) (h : rank t e = 0) : t = .done := by
+  cases t <;> simp [rank] at h ⊢
+  omega
+
+/-- the walk needs no more fuel than its rank: any two sufficient amounts give the same result -/
+theorem walkN_fuel (lax : Bool) (g : Mem) (n m : Nat) (p : Packet) (t : Tag) (c : Ctx) (h3 : c.nExt ≤ 3)
+    (hn : rank t c.nExt ≤ n) (hm : rank t c.nExt ≤ m) : walkN lax g n p t c = walkN lax g m p t c := by
+  induction n generalizing m p t c with
+  | zero =>
+    have := rank_zero h3 (by omega : rank t c.nExt = 0)
+    subst this
+    simp [walkN_done']
+  | succ n ih =>
+    by_cases ht : t = .done
+    · subst ht; simp [walkN_done']
+    · cases m with
+      | zero => exact absurd (rank_zero h3 (by omega : rank t c.nExt = 0)) ht
+      | succ m =>
+        simp only [walkN, ht, if_false]
+        have hd := step_desc lax g p t c h3 ht
+        cases hf : (step lax g p t c).fault with
+        | some f => rfl
+        | none =>
+          simp only
+          have := hd.2 hf
+          exact ih m _ _ _ hd.1 (by omega) (by omega)
+
+/-- from a tag behind the link layer the walk neither reads nor changes the link field -/
+theorem walkN_link (lax : Bool) (g : Mem) (n : Nat) (p : Packet) (t : Tag) (c : Ctx) (lk : Option LinkR)
+    (h1 : t ≠ .eth) (h2 : t ≠ .sll) (h3 : c.nExt ≤ 3) :
+    walkN lax g n (setLk lk p) t c = (setLk lk (walkN lax g n p t c).1, (walkN lax g n p t c).2) := by
+  induction n generalizing p t c with
+  | zero => simp only [walkN]; split <;> rfl
+  | succ n ih =>
+    simp only [walkN]
+    split
+    · rfl
+    · rename_i ht
+      rw [step_link lax g p t c lk h1 h2]
+      have hd := step_desc lax g p t c h3 ht
+      cases hf : (step lax g p t c).fault with
+      | some f => simp [stepLk, hf]
+      | none =>
+        simp only [stepLk, hf]
+        have hlt := hd.2 hf
+        refine ih _ _ _ ?_ ?_ hd.1
+        · intro h; rw [h] at hlt; cases t <;> simp [rank] at hlt <;> first | exact h1 rfl | exact h2 rfl | omega
+        · intro h; rw [h] at hlt; cases t <;> simp [rank] at hlt <;> first | exact h1 rfl | exact h2 rfl | omega
+
 end EpModel.Spec
